@@ -44,6 +44,8 @@ package dataflow
 //@ func InterfaceMethodKey
 //@   property C10
 //@   ensures is_invoke: result0 ==> callsite != nil && callsite.Common().IsInvoke()
+//@   ensures invoke_has_key: callsite != nil && callsite.Common() != nil && callsite.Common().IsInvoke() ==> result0
+//@   ensures key_is_type_dot_method: result0 ==> result1 == callsite.Common().Value.Type().String() + "." + callsite.Common().Method.Name()
 //@   modifies nothing
 
 //@ func AnalyzerState.LoadExternalContractSummary
@@ -52,6 +54,8 @@ package dataflow
 //@   ensures function_contract: node != nil && node.callee.Callee != nil && node.callee.Type != InterfaceContract && old(has(s.DataFlowContracts, node.callee.Callee.String())) ==> result == old(s.DataFlowContracts[node.callee.Callee.String()])
 //@   ensures no_contract: node != nil && node.callee.Callee != nil && node.callee.Type != InterfaceContract && !old(has(s.DataFlowContracts, node.callee.Callee.String())) ==> result == nil
 //@   ensures nil_node: node == nil ==> result == nil
+//@   macro IKEY() = node.callSite.Common().Value.Type().String() + "." + node.callSite.Common().Method.Name()
+//@   ensures interface_contract_first: node != nil && node.callee.Callee != nil && node.callee.Type == InterfaceContract && node.callSite != nil && node.callSite.Common() != nil && node.callSite.Common().IsInvoke() && old(has(s.DataFlowContracts, IKEY())) ==> result == old(s.DataFlowContracts[IKEY()])
 
 //@ func AnalyzerState.HasExternalContractSummary
 //@   property C05 C10
